@@ -1346,6 +1346,10 @@ lyd_change_term_val(struct lyd_node *term, struct lyd_value *val, ly_bool use_va
     /* update flags */
     if (val_change) {
         term->flags |= LYD_NEW;
+        if ((term->schema->flags & LYS_KEY) && term->parent) {
+            /* the list instance is a different instance now, it needs to be checked for duplicates */
+            term->parent->flags |= LYD_NEW;
+        }
     }
     if ((term->flags & LYD_DEFAULT) && !is_dflt) {
         /* remove dflt flag */
